@@ -46,6 +46,14 @@ theorem first_seen_rule (ops : List Op) (o : Op) (hdo : deliveryOnly (ops ++ [o]
       (run ops).wsum (run ops).tip < (run (ops ++ [o])).wsum (run (ops ++ [o])).tip :=
   step_first_seen ops o hdo hwf
 
+/-- The same over ANY number of further deliveries: however the history continues, the active chain
+is either still the same chain or one of strictly greater cumulative work. -/
+theorem first_seen_rule_multi (ops more : List Op) (hdo : deliveryOnly (ops ++ more))
+    (hwf : WF (mentioned (ops ++ more))) :
+    (run (ops ++ more)).best = (run ops).best ∨
+      (run ops).wsum (run ops).tip < (run (ops ++ more)).wsum (run (ops ++ more)).tip :=
+  run_first_seen_multi ops more hdo hwf
+
 /-! ### 2. failed reorganisations -/
 
 /-- `connectBestChain` that ends in an error — a block extending the tip that fails its connect-time
